@@ -1,7 +1,8 @@
 """C14 - images are returned bit-exact, numbered, on the right unit; unit views and document views agree.
 
 Space I (input shapes). A case is plain JSON
-    {"units": [[img, ...], ...], "ref": reference shape, "var": "text" | "bare" | "tbl"}     img = [format, "WxH", id]
+    {"units": [[img, ...], ...], "ref": reference shape, "var": "text" | "bare" | "tbl"}     img = [format, "WxH", id] or
+                                                                                            [format, "WxH", id, file layout]
 `units` are the 1..2 units (page / slide / sheet / chapter) of the document and the images anchored in each, in
 document order; two anchors with the same id are the SAME image (same kind, same bytes): an image used by several
 anchors.  Different ids have different payload bytes (the id is part of the payload).  `var`: every unit also
@@ -27,6 +28,18 @@ All 9 combinations other than the writer's own are enumerated over every layout 
 jpeg 640x480; thorough: + gif 3x2), every identity pattern and split, for the reference shapes relative / shared /
 dup_rid_parts (thorough: + parent, absolute; + the "bare" variant for <= 1 anchor).  None of it changes document order, the
 picture bytes or the anchoring, so the oracle below applies unchanged.
+`file layout` (4th element of an img, absent = the minimal file) is how the image FILE itself is written, see c14_images.LAYOUTS:
+    jpeg  prog (SOF2, two scans) | sof1 | fill (X'FF' fill bytes in front of markers) | exif (APP1 with a 160x120 JPEG thumbnail that has
+          its own frame header) | meta64k / meta300k / meta1m (Exif + multi-segment ICC profile: the frame header lies beyond 64 KiB /
+          256 KiB / 1 MiB of metadata, every segment < 64 KiB)
+    png   meta64k (pHYs + 70000-byte iTXt/XMP between IHDR and IDAT) | rgba          gif   87a (no extension blocks)
+    bmp   topdown (negative biHeight; declared height = |biHeight|) | v5 (BITMAPV5HEADER)
+The declared pixel size, the pixels and the content type are those of the plain file; only where / how the file says so differs, so
+the oracle applies unchanged (size is judged against an independent header reader, c14_images.sniff).  Enumerated per container
+format and image format it can hold: for every layout L (quick: jpeg prog, fill, exif, meta64k; png meta64k; gif 87a; bmp topdown,
+v5; thorough: all), every layout of 1..2 anchors over {640x480 image in layout L, plain 1x1 companion} that uses L (every identity
+pattern), in one unit with the default reference shape (thorough: every split over 1..2 units, and in one unit for every other
+image-producing reference shape).
 Enumerated: every image sequence of length 0..K over formats x dimensions, every identity pattern (set partition of
 the anchors, same id => same kind), every split over 1..2 units, per (document format, reference shape); the
 "bare" / "tbl" variants for sequences of length <= 2 with the default reference shape.  Fixtures: every file of the
@@ -84,6 +97,11 @@ ENV_KINDS_QUICK = [("png", "1x1"), ("jpeg", "640x480")]
 ENV_KINDS_ALL = [("png", "1x1"), ("jpeg", "640x480"), ("gif", "3x2")]
 ENV_REFS_QUICK = ["relative", "shared", "dup_rid_parts"]
 ENV_REFS_ALL = ["relative", "parent", "absolute", "shared", "dup_rid_parts"]
+# file layouts of the embedded image itself (c14_images.LAYOUTS): what precedes / surrounds / encodes the declaration of the pixel size
+LAY_QUICK = {"jpeg": ["prog", "fill", "exif", "meta64k"], "png": ["meta64k"], "gif": ["87a"], "bmp": ["topdown", "v5"]}
+LAY_ALL = {"jpeg": ["prog", "sof1", "fill", "exif", "meta64k", "meta300k", "meta1m"], "png": ["meta64k", "rgba"], "gif": ["87a"],
+           "bmp": ["topdown", "v5"]}
+LAY_DIM = "640x480"                                     # both sides > 255 and different: byte order and field order are visible
 FIXTURE_DIR = "/repo/sharepoint2text/tests/resources"
 FIXTURE_MAX_BYTES = 6_000_000
 
@@ -110,7 +128,8 @@ def layouts(kinds, kmax, max_units=2):
         for pat in _rgs(k):
             nid = (max(pat) + 1) if pat else 0
             for assign in itertools.product(kinds, repeat=nid):
-                seq = [[assign[i][0], assign[i][1], i] for i in pat]
+                # kind = (format, dimension) or (format, dimension, file layout); the layout is spelled only when it is not the plain one
+                seq = [[assign[i][0], assign[i][1], i] + [x for x in assign[i][2:3] if x] for i in pat]
                 yield [seq]
                 if max_units >= 2:
                     for s in range(k + 1):
@@ -150,13 +169,29 @@ def cases_for(tier, fmt):
             for units in layouts(ekinds, 1):
                 for env in PKG.envs():
                     yield {"units": units, "ref": ref0, "var": "bare", "env": env}
+    # file layouts of the image itself: every layout of 1..2 anchors over {the image in layout L, a plain 1x1 companion} that uses L
+    companion = (IMG_FORMATS[fmt][0], "1x1")
+    lays = LAY_QUICK if quick else LAY_ALL
+    for f in IMG_FORMATS[fmt]:
+        for lay in lays[f]:
+            for ref in ([ref0] if quick else [r for r in REFS[fmt] if r not in NO_IMAGE_REFS]):
+                for units in layouts([(f, LAY_DIM, lay), companion], 2, max_units=(2 if (ref == ref0 and not quick) else 1)):
+                    if not any(lay_of(im) == lay for u in units for im in u):
+                        continue
+                    if ref in ONLY_REPEATS and not has_repeat(units):
+                        continue
+                    yield {"units": units, "ref": ref, "var": "text"}
 
 
 # ------------------------------------------------------------------------------------------------ rendering
 
+def lay_of(im):
+    return im[3] if len(im) > 3 else ""
+
+
 def image_bytes(im):
     w, h = (int(x) for x in im[1].split("x"))
-    return IMG.make(im[0], w, h, im[2] + 1)
+    return IMG.make(im[0], w, h, im[2] + 1, lay_of(im))
 
 
 def _valid_case(fmt, case):
@@ -175,9 +210,11 @@ def _valid_case(fmt, case):
     kind = {}
     for u in units:
         for im in u:
-            if im[0] not in IMG_FORMATS[fmt] or im[1] not in DIMS_ALL:
+            if len(im) not in (3, 4) or im[0] not in IMG_FORMATS[fmt] or im[1] not in DIMS_ALL:
                 return False
-            if kind.setdefault(im[2], (im[0], im[1])) != (im[0], im[1]):
+            if len(im) == 4 and (not im[3] or im[3] not in IMG.LAYOUTS[im[0]]):      # the plain layout is spelled by omission
+                return False
+            if kind.setdefault(im[2], (im[0], im[1], lay_of(im))) != (im[0], im[1], lay_of(im)):
                 return False
     return True
 
@@ -640,7 +677,7 @@ def _renumber(units):
         for im in u:
             if im[2] not in m:
                 m[im[2]] = len(m)
-            nu.append([im[0], im[1], m[im[2]]])
+            nu.append([im[0], im[1], m[im[2]]] + list(im[3:]))
         out.append(nu)
     return out
 
@@ -699,7 +736,7 @@ def shrinks(case):
             x = []
             for im in u:
                 if im[2] in seen and not done:
-                    x.append([im[0], im[1], nxt])
+                    x.append([im[0], im[1], nxt] + list(im[3:]))
                     done = True
                 else:
                     x.append(list(im))
@@ -710,12 +747,22 @@ def shrinks(case):
     kinds_by_id = {}
     for u in units:
         for im in u:
-            kinds_by_id[im[2]] = (im[0], im[1])
-    for i, (f, d) in sorted(kinds_by_id.items()):
+            kinds_by_id[im[2]] = (im[0], im[1], lay_of(im))
+
+    def swap(i, f, d, lay):
+        return {"units": [[([f, d, im[2]] + ([lay] if lay else [])) if im[2] == i else list(im) for im in u] for u in units],
+                "ref": case["ref"], "var": var}
+    for i, (f, d, lay) in sorted(kinds_by_id.items()):
+        # the plain file layout first, then less of the same construction (never another construction: it may fail for its own reasons)
+        if lay:
+            yield swap(i, f, d, "")
+            for nl in (IMG.SIMPLER.get(lay, ()) if f == "jpeg" else ()):
+                yield swap(i, f, d, nl)
         for nd in DIMS_ALL[:DIMS_ALL.index(d)]:
-            yield {"units": [[[a, (nd if c == i else b), c] for a, b, c in u] for u in units], "ref": case["ref"], "var": var}
-        for nf in IMG.FORMATS[:IMG.FORMATS.index(f)]:
-            yield {"units": [[[(nf if c == i else a), b, c] for a, b, c in u] for u in units], "ref": case["ref"], "var": var}
+            yield swap(i, f, nd, lay)
+        if not lay:
+            for nf in IMG.FORMATS[:IMG.FORMATS.index(f)]:
+                yield swap(i, nf, d, "")
 
 
 def _default_refs(ref):
@@ -743,6 +790,9 @@ def embeds(small, big):
         return False
 
     def kmatch(a, b):
+        # a minimal shape that needs a file layout is only explained by an image of that format in that layout
+        if lay_of(a):
+            return a[0] == b[0] and lay_of(a) == lay_of(b) and (a[1] == "1x1" or a[1] == b[1])
         return (a[0] == "png" or a[0] == b[0]) and (a[1] == "1x1" or a[1] == b[1])
 
     def sub(a, b):
@@ -821,12 +871,19 @@ def run(ctx):
                    "(document format, reference shape) for 12 container formats; 'bare' and 'tbl' unit variants for <= 1 (quick) / 2 anchors; "
                    "docx/pptx/xlsx additionally under every relationship neighbourhood of c14_pkg (neighbour relationships x order of the "
                    ".rels parts x id assignment, 9 combinations) for every layout of 0..K anchors over ENV kinds and reference shapes; "
+                   "every container additionally with every file layout of the embedded image itself (c14_images.LAYOUTS: progressive / "
+                   "fill bytes / Exif thumbnail / frame header behind > 64 KiB of metadata segments for JPEG, large ancillary chunks for "
+                   "PNG, GIF87a, top-down and V5-header BMP; thorough: + SOF1, 256 KiB, 1 MiB, RGBA): every layout of 1..2 anchors over "
+                   "{640x480 image in that layout, plain 1x1 companion} that uses it; "
                    "every supported fixture file (inclusion clauses only); each package written by the reference writers, extracted by "
                    "the real extractor and judged against the bytes the harness embedded; distinct_nontrivial = distinct "
                    "(format, reference shape, anchors, images returned, units, tables, failing clauses) classes",
            "per_format": per_fmt, "outcomes": dict(sorted(outcomes.items(), key=lambda kv: -kv[1])[:150]), "samples": samples,
            "exhaustive": True, "bounds": {"tier": ctx.tier, "K": 2 if ctx.quick else 3, "dims": DIMS_QUICK if ctx.quick else DIMS_ALL,
                                           "units": "1..2", "refs": REFS,
+                                          "image_file_layouts": {"layouts": LAY_QUICK if ctx.quick else LAY_ALL, "dim": LAY_DIM, "anchors": "1..2",
+                                                                 "units": "1" if ctx.quick else "1..2 (default reference shape), 1 (others)",
+                                                                 "refs": "default" if ctx.quick else "every image-producing shape"},
                                           "env": {"formats": list(ENV_FORMATS), "neighbourhoods": PKG.envs(),
                                                   "kinds": ENV_KINDS_QUICK if ctx.quick else ENV_KINDS_ALL,
                                                   "refs": ENV_REFS_QUICK if ctx.quick else ENV_REFS_ALL}}}
@@ -844,6 +901,10 @@ ASSUMPTIONS = [
     "BMP in ppt/xls is stored as DIB (no file header): the DIB payload or the original BMP file are both accepted as 'identical bytes'",
     "tables without rows are ignored and cells are compared as str(cell) when unit and document table views are compared (xls unit "
     "tables are stringified copies by design)",
+    "'its pixel size when the file declares one': a JPEG declares it in its frame header (SOF0..SOF15 except DHT/JPG/DAC) wherever that "
+    "segment lies in the file and whatever metadata segments, fill bytes (ITU T.81 B.1.1.2) or embedded thumbnails precede it; a BMP "
+    "in biWidth x |biHeight| of any BITMAPINFOHEADER-compatible header (40 / 108 / 124 bytes); a GIF in its logical screen descriptor "
+    "(87a and 89a); a PNG in IHDR.  The thumbnail inside an Exif segment is not an image of the document",
     "odf: the draw:frame is 1cm x 1cm whatever the pixel size of the file; 'pixel size' is judged against the image file header",
     "missing / external references: no image may be returned for them (an entry with empty bytes counts as an image) and nothing may raise",
     "epub: the manifest lists the images in anchor order (document order of an EPUB is not settled between manifest and spine)",
